@@ -7,7 +7,7 @@ import traceback
 import z3
 
 from . import solve, source
-from .engine import Engine, LoopSpec, PathEnd, SymRaise
+from .engine import Engine, LoopSpec, PathEnd, SymRaise, Truncated
 from .values import SExc, Undecided
 
 REGISTRY: dict[str, "Contract"] = {}
@@ -70,6 +70,10 @@ class Contract:
         return []
 
     def post(self, a, ret, case):
+        return []
+
+    def post_truncated(self, a, case):
+        """clauses about the state at a truncation point (see LoopSpec.truncate)"""
         return []
 
     def raises(self, a, exc: SExc, case):
@@ -151,6 +155,11 @@ def verify_case(ident, case_index):
         run.cover("requires")
         try:
             ret = c.call(eng, run, fi, a, case)
+        except Truncated:
+            run.cur_func = c.key
+            for nm, g in c.post_truncated(a, case):
+                run.oblige(nm, g, kind="ensures", assume_after=False)
+            raise
         except SymRaise as e:
             run.cur_func = c.key
             for nm, g in c.raises(a, e.exc, case):
@@ -177,6 +186,9 @@ def verify_case(ident, case_index):
     out["paths"] = len(results)
     seen = set()
     trusted = set(c.trusted)
+    und = sorted({o[1] for _, o in results if o[0] == "undecided"})
+    if und:
+        out["undecided"] = "; ".join(und)[:600]
     for run, outcome in results:
         trusted |= run.trusted
         trusted |= {"fact:" + f for f in run.facts_used}
